@@ -60,7 +60,7 @@ def models(draw, with_groups=True, with_systems=True, with_offset=True, max_unit
     offsets = []
     if with_offset and nbase >= 3 or (with_offset and draw(st.booleans())):
         offsets.append({"name": "degx", "scale": draw(st.sampled_from([Fraction(1), Fraction(5, 9), Fraction(4, 5)])), "offset": draw(st.sampled_from([Fraction(27315, 100), Fraction(10), Fraction(-7, 2)])),
-                        "ref": base[-1][0], "symbol": "dgx"})
+                        "ref": base[-1][0], "symbol": draw(st.sampled_from(["dgx", "dgx", None])), "aliases": draw(st.sampled_from([[], ["degxalias"]]))})
     groups = []
     if with_groups:
         ng = draw(st.integers(0, 4))
@@ -135,7 +135,10 @@ def spellings(model):
             out[a] = u["name"]
     for o in model["offsets"]:
         out[o["name"]] = o["name"]
-        out[o["symbol"]] = o["name"]
+        if o["symbol"]:
+            out[o["symbol"]] = o["name"]
+        for a in o.get("aliases", []):
+            out[a] = o["name"]
     return out
 
 
@@ -213,7 +216,8 @@ def render(model, *, permute=True, split_import=False):
         if lay["spacing"] == 1:
             body.append("")
     for o in model["offsets"]:
-        body.append(f"{o['name']} = {fstr(o['scale'], style)} * {o['ref']}; offset: {fstr(o['offset'], style)} = {o['symbol']}")
+        tail = "".join(f" = {x}" for x in ([o["symbol"] or "_"] + list(o.get("aliases", []))) if o["symbol"] or o.get("aliases"))
+        body.append(f"{o['name']} = {fstr(o['scale'], style)} * {o['ref']}; offset: {fstr(o['offset'], style)}{tail}")
     blocks = []
     umap = {u["name"]: u for u in model["units"]}
     for g in model["groups"]:
